@@ -47,6 +47,8 @@ def gen_case(rng, ctx):
         a = rng.randrange(nb)
         origin = rng.choice(["own", "foreign", "foreign", "foreign", "foreign-deleted", "never", "huge", "negative", "str"])
         idref = dict(origin=origin, other=rng.randrange(nb), pick=rng.randrange(100))
+        if origin in ("own", "foreign") and rng.random() < 0.2:
+            idref["as_str"] = True          # the id in the other form Id allows: "17" for 17
         kind = rng.choice(["insert", "insert_with_id", "insert_with_id", "bulk", "upsert", "upsert", "replace", "replace",
                            "replace_last", "replace_last", "delete", "delete", "update_bucket", "recreate_bucket", "deleted_target"])
         op = dict(op=kind, b=a, id=idref, ev=ev())
@@ -58,6 +60,18 @@ def gen_case(rng, ctx):
             op["ids"] = [dict(origin=rng.choice(["own", "foreign", "foreign", "never", "none", "none", "huge", "str"]),
                               other=rng.randrange(nb), pick=rng.randrange(100)) for _ in op["evs"]]
         ops.append(op)
+    if rng.random() < 0.2:
+        # a burst around the NEWEST event of one bucket, with a write to another bucket in the middle: whatever a store
+        # remembers about "the newest event of A" must not end up pointing into B
+        a, b2 = rng.sample(range(nb), 2) if nb > 1 else (0, 0)
+        newest = dict(origin="own", other=b2, pick=-1, as_str=rng.random() < 0.5)
+        burst = [dict(op="insert", b=a, id=dict(origin="none", other=b2, pick=0), ev=ev()),
+                 dict(op="replace_last", b=a, id=dict(origin="none", other=b2, pick=0), ev=ev()),
+                 dict(op="delete", b=a, id=newest, ev=ev()),
+                 dict(op="insert", b=b2, id=dict(origin="none", other=a, pick=0), ev=ev()),
+                 dict(op="replace_last", b=a, id=dict(origin="none", other=b2, pick=0), ev=ev())]
+        at = rng.randrange(0, len(ops) + 1)
+        ops[at:at] = burst
     quiet = rng.random() < 0.5
     return dict(backend=backend, nb=nb, order=rng.sample(range(nb), nb), setup=setup, ops=ops, quiet=quiet,
                 names=bucket_ids(rng, nb), second=(not quiet or backend == "memory") and rng.random() < 0.3)
@@ -97,12 +111,14 @@ def _resolve(ds, bids, a, ref, deleted, never):
     if origin == "own":
         live = _ids(ds, bids[a])
         if live:
-            return live[ref["pick"] % len(live)], "own"
+            i = live[-1] if ref["pick"] == -1 else live[ref["pick"] % len(live)]      # (-1: the highest id of the bucket)
+            return (str(i), "own-as-str") if ref.get("as_str") else (i, "own")
         origin = "never"
     if origin == "foreign":
         live = _ids(ds, bids[o])
         if live:
-            return live[ref["pick"] % len(live)], "foreign"
+            i = live[ref["pick"] % len(live)]
+            return (str(i), "foreign") if ref.get("as_str") else (i, "foreign")
         origin = "foreign-deleted"
     if origin == "foreign-deleted":
         d = sorted(deleted.get(bids[o], ()))
